@@ -149,8 +149,10 @@ def generate(rng, tier="quick"):
     actors = []
     for i in range(n):
         cfg = gen_cfg(rng, worlds[windex[i]], 0.3 if faulty else 0.0)
+        cfg["default_resolver"] = rng.random() < 0.15      # Validator(schema) without resolver=
         if i in shared:
             cfg["base_mode"] = actors[0]["cfg"]["base_mode"]
+            cfg["default_resolver"] = actors[0]["cfg"]["default_resolver"]
             cfg["share_format_checker"] = rng.random() < 0.5
         actors.append({"world": windex[i], "cfg": cfg, "program": gen_program(rng, base, sites, faulty, tier),
                        "share_root_with": 0 if i in shared else None,
